@@ -243,7 +243,7 @@ func (Prop) RunBatch(c *vp.Child) {
 	}
 	var wrapped int64
 	cp := eng.Corpus{
-		Programs: c.Pick(2000, 60000),
+		Programs: c.Pick(2000, 30000),
 		NStyles:  c.Pick(1, 2),
 		NArgs:    c.Pick(2, 3),
 		Salt:     13,
